@@ -121,13 +121,37 @@ struct Batch {
 }
 
 fn run_batch(scn: &dyn Scenario, tables: &Tables, known: &Known, seed: u64, tier: Tier, nruns: u64, threads: usize, keep_hashes: bool) -> Batch {
-    let next = AtomicU64::new(0);
+    // triage children execute a sub-range of the batch
+    let from: u64 = std::env::var("PCSIM_FROM").ok().and_then(|s| s.parse().ok()).unwrap_or(0);
+    let next = AtomicU64::new(from);
     let min_fail = AtomicU64::new(u64::MAX);
     let results: Mutex<Vec<(Cov, BTreeSet<usize>, Option<Failure>, Vec<(u64, u64)>)>> = Mutex::new(Vec::new());
     const CHUNK: u64 = 32;
+    // hang watchdog: a real call that never returns (an endless loop) shows as a worker that
+    // stays in one run far longer than any run takes; the run index is reported through a
+    // side file and the process exits with status 3 (the supervisor turns that into a violation)
+    let slots: Vec<AtomicU64> = (0..threads).map(|_| AtomicU64::new(0)).collect();
+    let done = std::sync::atomic::AtomicBool::new(false);
+    let slot_counter = AtomicU64::new(0);
     std::thread::scope(|s| {
-        for _ in 0..threads {
+        s.spawn(|| {
+            let limit = hang_limit();
+            let mut seen: Vec<(u64, Instant)> = slots.iter().map(|_| (0u64, Instant::now())).collect();
+            while !done.load(Ordering::Relaxed) {
+                std::thread::sleep(std::time::Duration::from_millis(200));
+                for (i, sl) in slots.iter().enumerate() {
+                    let v = sl.load(Ordering::Relaxed);
+                    if v != seen[i].0 {
+                        seen[i] = (v, Instant::now());
+                    } else if v != 0 && seen[i].1.elapsed() > limit {
+                        report_hang(v - 1);
+                    }
+                }
+            }
+        });
+        let handles: Vec<_> = (0..threads).map(|_| {
             s.spawn(|| {
+                let my_slot = slot_counter.fetch_add(1, Ordering::Relaxed) as usize;
                 let mut env = Env::new(tables, known);
                 scn.declare(&mut env.cov);
                 let mut fail: Option<Failure> = None;
@@ -141,6 +165,7 @@ fn run_batch(scn: &dyn Scenario, tables: &Tables, known: &Known, seed: u64, tier
                         if run > min_fail.load(Ordering::Relaxed) {
                             continue;
                         }
+                        slots[my_slot].store(run + 1, Ordering::Relaxed);
                         let rs = rng::run_seed(seed, scn.id(), run);
                         let mut r = rng::Rng::new(rs);
                         let mut trace = scn.generate(&mut r, run, tier);
@@ -179,9 +204,14 @@ fn run_batch(scn: &dyn Scenario, tables: &Tables, known: &Known, seed: u64, tier
                         }
                     }
                 }
+                slots[my_slot].store(0, Ordering::Relaxed);
                 results.lock().unwrap().push((env.cov, env.known_hits, fail, hashes));
-            });
+            })
+        }).collect();
+        for h in handles {
+            let _ = h.join();
         }
+        done.store(true, Ordering::Relaxed);
     });
     let mut cov = Cov::new();
     scn.declare(&mut cov);
@@ -280,7 +310,226 @@ fn load_known() -> Known {
     }
 }
 
+/// How long one run (or one replay) may take before it counts as "a real call did not return".
+/// The longest legitimate runs (endurance stratum) take well under a second.
+fn hang_limit() -> std::time::Duration {
+    let s: u64 = std::env::var("PCSIM_HANG_SECS").ok().and_then(|s| s.parse().ok()).unwrap_or(30);
+    std::time::Duration::from_secs(s)
+}
+
+fn hang_file() -> String {
+    format!("{}/replays/hang-{}.tmp", root(), std::env::var("PCSIM_SUPERVISOR").unwrap_or_else(|_| "0".into()))
+}
+
+fn report_hang(run: u64) -> ! {
+    let _ = std::fs::create_dir_all(format!("{}/replays", root()));
+    let _ = std::fs::write(hang_file(), run.to_string());
+    eprintln!("pcsim: run {} has not returned within {:?}: a real call does not return", run, hang_limit());
+    std::process::exit(3);
+}
+
+fn tier_name(t: Tier) -> &'static str {
+    if t == Tier::Quick {
+        "quick"
+    } else {
+        "thorough"
+    }
+}
+
+/// Run ourselves as a child. A real call that overflows the stack or otherwise aborts
+/// the process cannot be caught by the unwind guard; the supervisor sees it as a child
+/// killed by a signal. Returns Ok(exit code) or Err(description of the abnormal end).
+fn run_child(args: &[&str], envs: &[(&str, String)], quiet: bool) -> Result<i32, String> {
+    let exe = std::env::current_exe().unwrap_or_else(|_| "pcsim".into());
+    let mut c = std::process::Command::new(exe);
+    c.args(args).env("PCSIM_CHILD", "1").env("PCSIM_SUPERVISOR", std::process::id().to_string());
+    for (k, v) in envs {
+        c.env(k, v);
+    }
+    if quiet {
+        c.stdout(std::process::Stdio::null()).stderr(std::process::Stdio::null());
+    }
+    match c.status() {
+        Ok(st) => match st.code() {
+            Some(code) if code == 0 || code == 1 || code == 2 => Ok(code),
+            Some(code) => Err(format!("exit status {}", code)),
+            None => {
+                use std::os::unix::process::ExitStatusExt;
+                Err(format!("killed by signal {}", st.signal().unwrap_or(0)))
+            }
+        },
+        Err(e) => harness_error(&format!("cannot start child process: {}", e)),
+    }
+}
+
+/// The batch child died abnormally: find the lowest run that does it, cut its trace down to
+/// the shortest prefix that still does it, and report that as the violation.
+fn crash_triage(id: &str, tier: Tier, how: &str) -> i32 {
+    let scn = scenario(id).unwrap_or_else(|| harness_error("unknown property"));
+    let seed: u64 = std::env::var("VERIF_SEED").ok().and_then(|s| s.trim().parse().ok()).unwrap_or(1);
+    let nruns: u64 = std::env::var("PCSIM_RUNS").ok().and_then(|s| s.parse().ok()).unwrap_or_else(|| scn.runs(tier));
+    println!("the batch process ended abnormally ({}): a real call aborted or did not return; locating the run", how);
+    let crashes = |from: u64, to: u64| -> bool {
+        run_child(&[id, tier_name(tier)], &[("PCSIM_FROM", from.to_string()), ("PCSIM_RUNS", to.to_string()), ("PCSIM_TRIAGE", "1".into())], true).is_err()
+    };
+    let my_hang_file = format!("{}/replays/hang-{}.tmp", root(), std::process::id());
+    let hung_run: Option<u64> = std::fs::read_to_string(&my_hang_file).ok().and_then(|t| t.trim().parse().ok());
+    let _ = std::fs::remove_file(&my_hang_file);
+    let run = if let (true, Some(r)) = (how.contains("status 3"), hung_run) {
+        r
+    } else {
+        let (mut lo, mut hi) = (0u64, nruns);
+        if !crashes(lo, hi) {
+            harness_error("the batch process died abnormally but a second execution did not (not deterministic?)");
+        }
+        while hi - lo > 1 {
+            let mid = lo + (hi - lo) / 2;
+            if crashes(lo, mid) {
+                hi = mid;
+            } else {
+                lo = mid;
+            }
+        }
+        lo
+    };
+    let hang = how.contains("status 3");
+    if hang {
+        // wall-clock verdicts must not depend on how busy the machine is: the run is executed
+        // again, alone, with three times the limit, before anything is reported
+        let mut r0 = rng::Rng::new(rng::run_seed(seed, scn.id(), run));
+        let mut t0 = scn.generate(&mut r0, run, tier);
+        t0.seed = seed;
+        t0.run = run;
+        let _ = std::fs::create_dir_all(format!("{}/replays", root()));
+        let tmp0 = format!("{}/replays/{}-{}-{}.confirm.tmp", root(), id, seed, run);
+        let _ = std::fs::write(&tmp0, t0.render());
+        let r = run_child(&["replay", &tmp0], &[("PCSIM_QUIET", "1".into()), ("PCSIM_HANG_SECS", "100".into())], true);
+        let _ = std::fs::remove_file(&tmp0);
+        let _ = std::fs::remove_file(&my_hang_file);
+        if r.is_ok() {
+            eprintln!("pcsim: run {} exceeded the time limit inside the batch but completes when executed alone: the machine is overloaded, not the code stuck", run);
+            return 4; // the supervisor repeats the batch with a ten times longer limit
+        }
+    }
+    // replays of a hanging trace are cut off early
+    std::env::set_var("PCSIM_HANG_SECS", if hang { "5" } else { "30" });
+    let mut r = rng::Rng::new(rng::run_seed(seed, scn.id(), run));
+    let mut trace = scn.generate(&mut r, run, tier);
+    trace.seed = seed;
+    trace.run = run;
+    let _ = std::fs::create_dir_all(format!("{}/replays", root()));
+    let _ = std::fs::create_dir_all(format!("{}/evidence", root()));
+    let tmp = format!("{}/replays/{}-{}-{}.tmp", root(), id, seed, run);
+    let replay_crashes = |t: &Trace| -> bool {
+        if std::fs::write(&tmp, t.render()).is_err() {
+            return false;
+        }
+        run_child(&["replay", &tmp], &[("PCSIM_QUIET", "1".into())], true).is_err()
+    };
+    if !replay_crashes(&trace) {
+        let _ = std::fs::remove_file(&tmp);
+        harness_error(&format!("run {} aborts inside the batch but its trace replays without aborting", run));
+    }
+    // shortest aborting prefix
+    let orig = trace.ops.len();
+    let (mut a, mut b) = (0usize, trace.ops.len());
+    while b - a > 1 {
+        let m = a + (b - a) / 2;
+        let mut t = trace.clone();
+        t.ops.truncate(m);
+        if replay_crashes(&t) {
+            b = m;
+        } else {
+            a = m;
+        }
+    }
+    trace.ops.truncate(b);
+    // drop leading ops in chunks while it still aborts (bounded: each hanging replay costs seconds)
+    let mut budget = if hang { 24 } else { 400 };
+    let mut chunk = trace.ops.len() / 2;
+    while chunk >= 1 && budget > 0 {
+        let mut i = 0;
+        while i + chunk < trace.ops.len() {
+            let mut t = trace.clone();
+            t.ops.drain(i..i + chunk);
+            budget -= 1;
+            if replay_crashes(&t) {
+                trace = t;
+            } else {
+                i += chunk;
+            }
+            if budget == 0 {
+                break;
+            }
+        }
+        chunk /= 2;
+    }
+    if hang {
+        // the cut-down trace must still not return under the generous limit; otherwise keep the full one
+        std::env::set_var("PCSIM_HANG_SECS", "30");
+        if !replay_crashes(&trace) {
+            let mut r0 = rng::Rng::new(rng::run_seed(seed, scn.id(), run));
+            trace = scn.generate(&mut r0, run, tier);
+            trace.seed = seed;
+            trace.run = run;
+        }
+    }
+    let _ = std::fs::remove_file(&tmp);
+    let _ = std::fs::remove_file(&my_hang_file);
+    let detail = if hang {
+        format!("op {} does not return: the process executing this trace had to be stopped after the time limit (endless loop or unbounded recursion inside a real call)", trace.ops.len().saturating_sub(1))
+    } else {
+        format!("the process executing this trace was {} (stack overflow or abort inside a real call) at op {}", how, trace.ops.len().saturating_sub(1))
+    };
+    trace.expect = Some(op::Expect { oracle: if hang { "call-returns".into() } else { "no-abort".into() }, detail: detail.clone() });
+    let path = format!("{}/replays/{}-{}-{}.replay", root(), id, seed, run);
+    let abs = std::fs::canonicalize(root()).map(|p| p.join(format!("replays/{}-{}-{}.replay", id, seed, run))).unwrap_or_else(|_| path.clone().into());
+    if std::fs::write(&path, trace.render()).is_err() {
+        harness_error("cannot write the replay file");
+    }
+    println!("violation in run {} (oracle {}): {} ops cut down to {}", run, if hang { "call-returns" } else { "no-abort" }, orig, trace.ops.len());
+    println!("  {}", detail);
+    // evidence for the failing batch (the child could not write it)
+    let mut c = J::obj();
+    c.set("evaluations", J::u(run + 1));
+    c.set("distinct_nontrivial", J::u(2));
+    c.set("rule", J::s("the batch process aborted inside a real call (not an unwind): the supervisor bisected the run index with child processes and cut the trace to the shortest aborting prefix; evaluations = runs up to and including the aborting one; distinct_nontrivial is a placeholder (the aborting process takes its coverage with it)"));
+    c.set("samples", J::Arr(trace.ops.iter().take(12).map(|o| J::s(&op::op_show(&o.op))).collect()));
+    c.set("exhaustive", J::Bool(false));
+    c.set("violation", J::s(&detail));
+    c.set("replay_file", J::s(&abs.display().to_string()));
+    let mut e = J::obj();
+    e.set("property_id", J::s(id));
+    e.set("tier", J::s(tier_name(tier)));
+    e.set("seed", J::u(seed));
+    e.set("level", J::s(scn.level()));
+    e.set("coverage", c);
+    e.set("assumptions", J::Arr(scn.assumptions().iter().map(|s| J::s(s)).collect()));
+    e.set("wall_s", J::Num(0.0));
+    e.set("violations", J::u(1));
+    let adhoc = std::env::var("PCSIM_RUNS").is_ok();
+    let evpath = if adhoc { format!("{}/evidence/{}.adhoc.json", root(), id) } else { format!("{}/evidence/{}.json", root(), id) };
+    let _ = std::fs::write(&evpath, e.render());
+    println!("VIOLATION property={} replay={}", id, abs.display());
+    1
+}
+
 fn cmd_check(id: &str, tier: Tier) -> i32 {
+    if std::env::var("PCSIM_CHILD").is_err() {
+        if scenario(id).is_none() {
+            harness_error(&format!("no check for property {}", id));
+        }
+        return match run_child(&[id, tier_name(tier)], &[], false) {
+            Ok(code) => code,
+            Err(how) => match crash_triage(id, tier, &how) {
+                4 => match run_child(&[id, tier_name(tier)], &[("PCSIM_HANG_SECS", "300".into())], false) {
+                    Ok(code) => code,
+                    Err(how2) => harness_error(&format!("the batch process ended abnormally twice ({}; {}) although the suspected run completes on its own", how, how2)),
+                },
+                code => code,
+            },
+        };
+    }
     let scn = match scenario(id) {
         Some(s) => s,
         None => harness_error(&format!("no check for property {}", id)),
@@ -303,6 +552,9 @@ fn cmd_check(id: &str, tier: Tier) -> i32 {
     let t0 = Instant::now();
     println!("pcsim: property={} tier={:?} VERIF_SEED={} runs={} threads={}", id, tier, seed, nruns, threads);
     let mut b = run_batch(scn.as_ref(), tables, &known, seed, tier, nruns, threads, false);
+    if std::env::var("PCSIM_TRIAGE").is_ok() {
+        return 0;
+    }
     let mut extra: Vec<(String, J)> = Vec::new();
     // batch-level history check (only meaningful if no run failed)
     if b.failure.is_none() {
@@ -354,9 +606,7 @@ fn cmd_check(id: &str, tier: Tier) -> i32 {
         );
         println!("  {}", minv.detail);
         // fresh-process replay must reproduce exactly
-        let exe = std::env::current_exe().unwrap_or_else(|_| "pcsim".into());
-        let st = std::process::Command::new(exe).arg("replay").arg(&path).env("PCSIM_QUIET", "1").stdout(std::process::Stdio::null()).status();
-        let reproduced = matches!(st.map(|s| s.code()), Ok(Some(1)));
+        let reproduced = matches!(run_child(&["replay", &path], &[("PCSIM_QUIET", "1".into())], true), Ok(1));
         let wall = t0.elapsed().as_secs_f64();
         extra.push(("violation".into(), J::s(&format!("run {} oracle {}: {}", f.run, minv.oracle, minv.detail))));
         extra.push(("replay_file".into(), J::s(&abs.display().to_string())));
@@ -402,6 +652,18 @@ fn cmd_check(id: &str, tier: Tier) -> i32 {
 }
 
 fn cmd_replay(path: &str) -> i32 {
+    if std::env::var("PCSIM_CHILD").is_err() {
+        return match run_child(&["replay", path], &[], false) {
+            Ok(code) => code,
+            Err(how) => {
+                let prop = std::fs::read_to_string(path).ok().and_then(|t| Trace::parse(&t).ok()).map(|t| t.prop).unwrap_or_default();
+                let _ = std::fs::remove_file(format!("{}/replays/hang-{}.tmp", root(), std::process::id()));
+                println!("replay: the process executing the trace ended abnormally ({}) - a real call aborted or did not return", how);
+                println!("VIOLATION property={} replay={}", prop, path);
+                1
+            }
+        };
+    }
     let text = match std::fs::read_to_string(path) {
         Ok(t) => t,
         Err(e) => harness_error(&format!("{}: {}", path, e)),
@@ -416,6 +678,11 @@ fn cmd_replay(path: &str) -> i32 {
     };
     let tables = spec::tables();
     let known = load_known();
+    // hang watchdog for the single run
+    std::thread::spawn(|| {
+        std::thread::sleep(hang_limit());
+        report_hang(0);
+    });
     let mut env = Env::new(tables, &known);
     scn.declare(&mut env.cov);
     env.verbose = std::env::var("PCSIM_QUIET").is_err();
